@@ -180,15 +180,28 @@ class RxBackend(Backend):
 class RxGraphAdapter(GraphAdapter):
     def __init__(self, graph: rx.PyGraph | rx.PyDiGraph) -> None:
         self.graph = graph
+        # Graphs built by RxBackend.construct carry the mapping from geff node ids to
+        # rustworkx node indices. The adapter speaks geff ids, like the other adapters.
+        attrs = graph.attrs if isinstance(graph.attrs, dict) else {}
+        self._to_rx_id: dict[int, int] | None = attrs.get("to_rx_id_map")
+        self._from_rx_id: dict[int, int] | None = (
+            None if self._to_rx_id is None else {v: k for k, v in self._to_rx_id.items()}
+        )
+
+    def _rx_id(self, node: int) -> int:
+        return node if self._to_rx_id is None else self._to_rx_id[node]
+
+    def _geff_id(self, rx_id: int) -> int:
+        return rx_id if self._from_rx_id is None else self._from_rx_id[rx_id]
 
     def get_node_ids(self) -> Sequence[int]:
-        return list(self.graph.node_indices())
+        return [self._geff_id(i) for i in self.graph.node_indices()]
 
     def get_edge_ids(self) -> Sequence[tuple[int, int]]:
-        return list(self.graph.edge_list())
+        return [(self._geff_id(u), self._geff_id(v)) for u, v in self.graph.edge_list()]
 
     def has_node_prop(self, name: str, node: int, metadata: GeffMetadata) -> bool:
-        return name in self.graph[node]
+        return name in self.graph[self._rx_id(node)]
 
     def get_node_prop(
         self,
@@ -196,10 +209,10 @@ class RxGraphAdapter(GraphAdapter):
         node: int,
         metadata: GeffMetadata,
     ) -> Any:
-        return self.graph[node][name]
+        return self.graph[self._rx_id(node)][name]
 
     def has_edge_prop(self, name: str, edge: tuple[int, int], metadata: GeffMetadata) -> bool:
-        return name in self.graph.get_edge_data(*edge)
+        return name in self.graph.get_edge_data(self._rx_id(edge[0]), self._rx_id(edge[1]))
 
     def get_edge_prop(
         self,
@@ -207,4 +220,4 @@ class RxGraphAdapter(GraphAdapter):
         edge: tuple[int, int],
         metadata: GeffMetadata,
     ) -> Any:
-        return self.graph.get_edge_data(*edge)[name]
+        return self.graph.get_edge_data(self._rx_id(edge[0]), self._rx_id(edge[1]))[name]
